@@ -215,10 +215,13 @@ def ejson_agreement(ctx):
             decided_ok, seen_kinds, wrong = True, set(), []
             for p_ in _En(where=h.qualname).paths(branch.body):
                 pv_ = _PV(p_)
-                if len(pv_.returns) != 1:
-                    continue
+                if len(pv_.returns) != 1 or pseudo(pv_.returns[0]) in h.params:
+                    continue        # falls through with the raw object
+                if any(it_.kind in ('try_partial', 'handler') for it_ in p_.items):
+                    continue        # decoding failed on this path: nothing decoded is returned
                 # an aware result is built from the offset component; the naive result (the parsed value) is not
-                aware_ret = ofs in names_in(pv_.returns[0])
+                aware_ret = ofs in names_in(pv_.returns[0]) or \
+                    any(isinstance(n_, ast.Call) and ofs in names_in(n_) for n_ in path_nodes(p_, into_loops=True))
                 gs = {}
                 for t_, pol_ in p_.guards():
                     t_, pol_ = norm_compare(t_, pol_)
@@ -235,6 +238,20 @@ def ejson_agreement(ctx):
                       'aware iff the offset component is not None' + ('' if decided_ok else ' (found: %s)' % '; '.join(wrong)),
                       'the decoder does not decide whether a datetime is zone-aware by the offset component (the zone name is None for '
                       'aware values of unnamed fixed-offset zones too): such a value resumes as a naive datetime, its offset ignored')
+    # a decoded value is handed back whatever it is: testing it for truth sends every falsy value (Decimal 0, a zero duration, an
+    # empty set) back as the raw one-key object it was stored as
+    for tag, branch in sorted(dt.items()):
+        holders = {pseudo(a_.targets[0]) for a_ in ast.walk(branch) if isinstance(a_, ast.Assign) and len(a_.targets) == 1
+                   and pseudo(a_.targets[0]) and not (isinstance(a_.value, ast.Constant) and a_.value.value is None)}
+        for t_ in ast.walk(branch):
+            if isinstance(t_, ast.If) and t_ is not branch:
+                tt = t_.test.operand if isinstance(t_.test, ast.UnaryOp) and isinstance(t_.test.op, ast.Not) else t_.test
+                if isinstance(tt, ast.Name) and tt.id in holders and \
+                        any(isinstance(r_, ast.Return) for r_ in ast.walk(t_)):
+                    run.fail('R16', where(repo, t_), h.qualname, '%s: decoded value tested for truth before it is returned' % tag,
+                             'the decoder returns the decoded value of %s only when it is truthy: a value that is falsy (0 as a decimal, a '
+                             'zero-length duration, an empty set) comes back as the raw {tag: text} object' % tag)
+    run.ok('R16', h.where, 'no decoded value is tested for truth')
     abstypes.r17_isinstance_order(ctx, [d], floor=1)
     return enc, dec, d, h, et, dt
 
